@@ -1,3 +1,4 @@
+import BoolFn.Proofs.ElimAll
 import BoolFn.Proofs.Oracle
 import BoolFn.Proofs.BddQuant
 import BoolFn.Proofs.BddOps
@@ -173,6 +174,17 @@ theorem bdd_foreign_or_empty (vs : List α) (hnd : vs.Nodup) (b : Bdd α) (hb : 
   · obtain ⟨d, hd, hdw, hdi, hdd⟩ := Bdd.forallQ_den vs hnd b hb
     rw [h] at hd; cases hd
     exact Bdd.eq_of_den _ _ hdw hb (by rw [hdi, hfil]) (fun ρ => by rw [hdd, hcongr (· && ·) (by intro a; cases a <;> rfl)])
+end
+
+section
+variable [Ord α] [Std.TransOrd α] [Std.LawfulEqOrd α]
+/-- quantifying *every* input away leaves the constant "satisfiable" (∃) / "tautology" (∀), read off the weight -/
+theorem bdd_exists_all_inputs (b : Bdd α) (h : b.WF) :
+    ∃ c, Bdd.existsQ b.inputs b = .ok c ∧ c.inputs = [] ∧ ∀ ρ, c.den ρ = decide (0 < b.weight) :=
+  C10.bdd_exists_all b h
+theorem bdd_forall_all_inputs (b : Bdd α) (h : b.WF) :
+    ∃ c, Bdd.forallQ b.inputs b = .ok c ∧ c.inputs = [] ∧ ∀ ρ, c.den ρ = decide (b.weight = 2 ^ b.inputs.length) :=
+  C10.bdd_forall_all b h
 end
 
 /-- the pre-repair definition `F[all=0] ∘ F[all=1]`, written out, is wrong for two variables:
